@@ -7,6 +7,8 @@ C02's leaf accounting for errors raised by the child while it unwinds.
 
 from __future__ import annotations
 
+import itertools
+
 from .. import treecheck, treefam
 
 PROPERTY = "C07"
@@ -29,21 +31,29 @@ SHARD_TIMEOUT = {"quick": 300, "thorough": 1500}
 
 
 def all_cases(tier: str, seed: int):  # noqa: ANN201
-    yield from treecheck.cases("c07", tier, seed, 4000, 60000, extra=treefam.start_sweep)
+    yield from treecheck.cases("c07", tier, seed, 4000, 60000, extra=lambda: itertools.chain(treefam.start_sweep(), treefam.start_into_cancelled()))
 
 
 def shards(tier: str, seed: int) -> list[dict]:
     return treecheck.shards(tier, seed)
 
 
+def judge(case: dict, col) -> None:  # noqa: ANN001
+    # "after started() the child is an ordinary member of the group": in the family whose
+    # only tasks besides the callers are start() children, a child that is not interrupted
+    # in the cancelled group (a C03 clause) is a C07 violation as well
+    also = ("C03",) if case.get("profile") == "fam:start_into_cancelled" else ()
+    treecheck.judge(PROPERTY, case, col, also=also)
+
+
 def run_shard(desc: dict, col) -> None:  # noqa: ANN001
     for i, case in enumerate(all_cases(desc["tier"], desc["seed"])):
         if i % desc["of"] == desc["shard"]:
-            treecheck.judge(PROPERTY, case, col)
+            judge(case, col)
 
 
 def replay(case: dict, col) -> None:  # noqa: ANN001
-    treecheck.judge(PROPERTY, case, col)
+    judge(case, col)
 
 
 def finish(col, tier: str) -> None:  # noqa: ANN001
